@@ -293,3 +293,106 @@ def run_forms(pid):
         return ck.result()
 
     return run
+
+
+# ------------------------------------------------------------------------------------------- equivalent forms of operations
+def call_forms(pid):
+    """-> list of (name, dims, build) with build(pool) -> list of (form name, callable); pool = ops.pool_for(d, v)"""
+    E = []
+    if pid == "C10":
+        E += [("perpendicular", (2, 3), lambda P: [("positional", lambda: P["l0"].perpendicular(P["p2"])), ("through=", lambda: P["l0"].perpendicular(through=P["p2"]))]),
+              ("parallel", (2, 3), lambda P: [("positional", lambda: P["l0"].parallel(P["p2"])), ("through=", lambda: P["l0"].parallel(through=P["p2"]))]),
+              ("project", (2, 3), lambda P: [("positional", lambda: P["l0"].project(P["p2"])), ("pt=", lambda: P["l0"].project(pt=P["p2"]))]),
+              ("mirror", (2,), lambda P: [("positional", lambda: P["l0"].mirror(P["p2"])), ("pt=", lambda: P["l0"].mirror(pt=P["p2"]))]),
+              ("plane.perpendicular", (3,), lambda P: [("positional", lambda: P["e0"].perpendicular(P["p3"])), ("through=", lambda: P["e0"].perpendicular(through=P["p3"]))]),
+              ("plane.project", (3,), lambda P: [("positional", lambda: P["e0"].project(P["p3"])), ("pt=", lambda: P["e0"].project(pt=P["p3"]))]),
+              ("plane.mirror", (3,), lambda P: [("positional", lambda: P["e0"].mirror(P["p3"])), ("pt=", lambda: P["e0"].mirror(pt=P["p3"]))]),
+              ("is_perpendicular", (2,), lambda P: [("(l, m)", lambda: G.is_perpendicular(P["l0"], P["l1"])), ("(m, l)", lambda: G.is_perpendicular(P["l1"], P["l0"])), ("l=, m=", lambda: G.is_perpendicular(l=P["l0"], m=P["l1"]))]),
+              ("is_parallel", (2, 3), lambda P: [("l.is_parallel(m)", lambda: P["l0"].is_parallel(P["l1"])), ("m.is_parallel(l)", lambda: P["l1"].is_parallel(P["l0"])), ("other=", lambda: P["l0"].is_parallel(other=P["l1"]))]),
+              ("angle_bisectors", (2,), lambda P: [("(l, m)", lambda: list(G.angle_bisectors(P["l0"], P["l1"]))), ("l=, m=", lambda: list(G.angle_bisectors(l=P["l0"], m=P["l1"])))])]
+    if pid == "C09":
+        E += [("dist(p, q)", (2, 3), lambda P: [("(p, q)", lambda: G.dist(P["p0"], P["p1"])), ("(q, p)", lambda: G.dist(P["p1"], P["p0"])), ("p=, q=", lambda: G.dist(p=P["p0"], q=P["p1"])), ("q=, p=", lambda: G.dist(q=P["p1"], p=P["p0"]))]),
+              ("dist(p, l)", (2, 3), lambda P: [("(p, l)", lambda: G.dist(P["p2"], P["l0"])), ("(l, p)", lambda: G.dist(P["l0"], P["p2"])), ("p=, q=", lambda: G.dist(p=P["p2"], q=P["l0"]))]),
+              ("dist(p, seg)", (2, 3), lambda P: [("(p, s)", lambda: G.dist(P["p2"], P["s0"])), ("(s, p)", lambda: G.dist(P["s0"], P["p2"]))]),
+              ("dist(p, e)", (3,), lambda P: [("(p, e)", lambda: G.dist(P["p3"], P["e0"])), ("(e, p)", lambda: G.dist(P["e0"], P["p3"]))]),
+              ("angle(l, m)", (2,), lambda P: [("(l, m)", lambda: G.angle(P["l0"], P["l1"])), ("-(m, l)", lambda: -G.angle(P["l1"], P["l0"]))])]
+    if pid == "C07":
+        E += [("t*p", (2, 3), lambda P: [("t * x", lambda: P["t0"] * P["p0"]), ("t.apply(x)", lambda: P["t0"].apply(P["p0"])), ("apply(other=)", lambda: P["t0"].apply(other=P["p0"]))]),
+              ("t*l", (2, 3), lambda P: [("t * x", lambda: P["t0"] * P["l0"]), ("t.apply(x)", lambda: P["t0"].apply(P["l0"]))]),
+              ("t*e", (3,), lambda P: [("t * x", lambda: P["t0"] * P["e0"]), ("t.apply(x)", lambda: P["t0"].apply(P["e0"]))]),
+              ("t*q", (2, 3), lambda P: [("t * x", lambda: P["t0"] * P["q0"]), ("t.apply(x)", lambda: P["t0"].apply(P["q0"]))]),
+              ("t*seg", (2, 3), lambda P: [("t * x", lambda: [P["t0"] * P["s0"], (P["t0"] * P["s0"])._line]), ("t.apply(x)", lambda: [P["t0"].apply(P["s0"]), P["t0"].apply(P["s0"])._line])]),
+              ("t*polygon", (2, 3), lambda P: [("t * x", lambda: [P["t0"] * P["g0"]] + ([(P["t0"] * P["g0"])._plane] if P["g0"].dim > 2 else [])), ("t.apply(x)", lambda: [P["t0"].apply(P["g0"])] + ([P["t0"].apply(P["g0"])._plane] if P["g0"].dim > 2 else []))]),
+              ("t*t", (2, 3), lambda P: [("s * t", lambda: P["t0"] * P["t1"]), ("s.apply(t)", lambda: P["t0"].apply(P["t1"]))]),
+              ("join", (2, 3), lambda P: [("join(a, b)", lambda: G.join(P["p0"], P["p1"])), ("a.join(b)", lambda: P["p0"].join(P["p1"])), ("b.join(a)", lambda: P["p1"].join(P["p0"])), ("Line(a, b)", lambda: G.Line(P["p0"], P["p1"]))])]
+    if pid == "C11":
+        E += [("crossratio from_point", (2,), lambda P: [("positional", lambda: G.crossratio(P["c0"], P["c1"], P["c2"], P["c3"], P["p3"])), ("from_point=", lambda: G.crossratio(P["c0"], P["c1"], P["c2"], P["c3"], from_point=P["p3"])),
+                                                          ("a=, b=, c=, d=", lambda: G.crossratio(a=P["c0"], b=P["c1"], c=P["c2"], d=P["c3"], from_point=P["p3"]))]),
+              ("crossratio collinear", (2, 3), lambda P: [("positional", lambda: G.crossratio(P["c0"], P["c1"], P["c2"], P["c3"])), ("from_point=None", lambda: G.crossratio(P["c0"], P["c1"], P["c2"], P["c3"], None)),
+                                                          ("keywords", lambda: G.crossratio(a=P["c0"], b=P["c1"], c=P["c2"], d=P["c3"]))]),
+              ("harmonic_set", (2, 3), lambda P: [("positional", lambda: G.harmonic_set(P["c0"], P["c1"], P["c2"])), ("keywords", lambda: G.harmonic_set(a=P["c0"], b=P["c1"], c=P["c2"]))])]
+    if pid == "C14":
+        E += [("tangent", (2, 3), lambda P: [("positional", lambda: (P["circle"] if "circle" in P else P["sphere"]).tangent(P["qon"])), ("at=", lambda: (P["circle"] if "circle" in P else P["sphere"]).tangent(at=P["qon"]))]),
+              ("is_tangent", (2, 3), lambda P: [("positional", lambda: (P["circle"] if "circle" in P else P["sphere"]).is_tangent(P["qtan"])), ("plane=", lambda: (P["circle"] if "circle" in P else P["sphere"]).is_tangent(plane=P["qtan"]))]),
+              ("contains", (2, 3), lambda P: [("positional", lambda: (P["circle"] if "circle" in P else P["sphere"]).contains(P["qon"])), ("other=", lambda: (P["circle"] if "circle" in P else P["sphere"]).contains(other=P["qon"]))]),
+              ("intersect", (2, 3), lambda P: [("positional", lambda: (P["circle"] if "circle" in P else P["sphere"]).intersect(P["l0"])), ("other=", lambda: (P["circle"] if "circle" in P else P["sphere"]).intersect(other=P["l0"]))])]
+    if pid == "C16":
+        E += [("segment.contains", (2, 3), lambda P: [("positional", lambda: P["s0"].contains(P["p0"])), ("other=", lambda: P["s0"].contains(other=P["p0"])), ("off", lambda: None)][:2]),
+              ("polygon.contains", (2, 3), lambda P: [("positional", lambda: P["g0"].contains(P["gin"])), ("other=", lambda: P["g0"].contains(other=P["gin"]))]),
+              ("polygon.contains(vertex)", (2, 3), lambda P: [("positional", lambda: P["tri"].contains(P["p1"])), ("other=", lambda: P["tri"].contains(other=P["p1"]))])]
+    return E
+
+
+def call_forms_strategy(pid):
+    from hypothesis import strategies as st
+
+    from . import common as C
+    from . import zoo as Z
+
+    names = [(nm, d) for nm, dims, _ in call_forms(pid) for d in dims]
+
+    @st.composite
+    def strat(draw, tier="quick"):
+        v = draw(Z.params())
+        nm, d = C.uniform_pick(names, v)
+        return {"entry": nm, "d": d, "v": v}
+
+    return strat
+
+
+def run_call_forms(pid):
+    from . import ops as O
+    from .runner import Checker, Fail, call
+
+    table = {(nm, d): build for nm, dims, build in call_forms(pid) for d in dims}
+
+    def run(c):
+        build = table.get((c["entry"], c["d"]))
+        if build is None:
+            raise Skip("unknown entry")
+        pool = O.pool_for(c["d"], c["v"])
+        try:
+            forms = build(pool)
+        except KeyError:
+            raise Skip("pool entry missing")
+        ck = Checker()
+        base_name, base = None, None
+        for fname, f in forms:
+            try:
+                o, fail = call(f"call-forms:{c['entry']}:{fname}", f)
+            except KeyError:
+                raise Skip("pool entry missing")
+            if fail:
+                if base_name is None:
+                    raise Skip("the first form fails on these arguments (subject of another property)")
+                ck.add(fail)
+                continue
+            if base_name is None:
+                base_name, base = fname, o
+                continue
+            ok, detail = O.same(base, o, "auto", 1e-9)
+            if not ok:
+                ck.add(Fail("MISMATCH", f"call-forms:{c['entry']}:d{c['d']}:{fname}=={base_name}", str(detail)[:300]))
+        return ck.result()
+
+    return run
